@@ -2094,3 +2094,172 @@ def r_latefield(ctx, rep):
         else:
             rep.holds("R-LATEFIELD", key, loc(fn.raw), "no collection field is read before the assignment that fills it")
     rep.floor("R-LATEFIELD", 2, "loading steps that assign reader fields")
+
+
+# ----------------------------------------------------------------------------------------------
+# round 13 (value-level, shape-preserving changes): the few that have a structural trace
+
+def _range_bounds(ix):
+    """(start, end) literals of `x[a..b]` / `x[a..]`, None where absent or not literal"""
+    idx = unwrap(ix["idx"])
+    st = en = None
+    if isinstance(idx, dict) and idx.get("k") == "Struct":
+        for f in idx.get("fields", []):
+            if f["name"] == "start":
+                st = lit_value(f["e"])
+            if f["name"] == "end":
+                en = lit_value(f["e"])
+    return st, en
+
+
+def r_cfbhdr(ctx, rep):
+    """C13 (and every xls / vba property): [MS-CFB] 2.2: the header holds the first 109 DIFAT entries in bytes 76..512;
+    a version-3 directory entry (512-byte sectors) carries a 32-bit stream size in bytes 120..124 -- the upper half may
+    hold garbage -- and only version 4 uses all eight bytes."""
+    F = ctx.facts("default")
+    fn = F.fn("cfb::Header::from_reader")
+    key = "cfb::Header::from_reader|R-TAB-CFB|difat-bytes"
+    if fn is None:
+        rep.anchor_missing("R-TAB-CFB", "cfb::Header::from_reader")
+    else:
+        from .kit import const_value
+        spans = []
+        for ix in walk_k(fn.body, "Index"):
+            idx = unwrap(ix["idx"])
+            if isinstance(idx, dict) and idx.get("k") == "Struct":
+                f = {x["name"]: x["e"] for x in idx.get("fields", [])}
+                st = const_value(F, f["start"]) if "start" in f else None
+                en = const_value(F, f["end"]) if "end" in f else None
+                if st == 76:
+                    spans.append((ix, en))
+        if not spans:
+            rep.anchor_missing("R-TAB-CFB", "the slice of the header that holds the DIFAT entries (from byte 76)")
+        elif any(en not in (512, None) for _, en in spans):
+            rep.violation("R-TAB-CFB", key, loc(spans[0][0]), "the header DIFAT is read from bytes 76..%s, not 76..512 (109 entries): a file with 109 or more FAT sectors loses a FAT sector and every chain beyond it" % [en for _, en in spans][0])
+        else:
+            rep.holds("R-TAB-CFB", key, loc(spans[0][0]), "header DIFAT = bytes 76..512")
+    fn = F.fn("cfb::Directory::from_slice")
+    key = "cfb::Directory::from_slice|R-TAB-CFB|len-width"
+    if fn is None:
+        rep.anchor_missing("R-TAB-CFB", "cfb::Directory::from_slice")
+        return
+    from .kit import const_value
+    hit = None
+    for i in walk_k(fn.body, "If"):
+        c = unwrap(i["cond"])
+        if isinstance(c, dict) and c.get("k") == "Binary" and c.get("op") in ("==", "!="):
+            v = const_value(F, c["r"])
+            v = v if v is not None else const_value(F, c["l"])
+            if v in (512, 4096):
+                hit = (i, c, v)
+    def ends(e):
+        return {_range_bounds(ix)[1] for ix in walk_k(e, "Index")} - {None}
+    if hit is None:
+        # `match sector_size { 512 => <4 bytes>, _ => <8 bytes> }`
+        for m in walk_k(fn.body, "Match"):
+            if m.get("src") in ("TryDesugar", "ForLoopDesugar"):
+                continue
+            arms512 = [a for a in m.get("arms", []) if 512 in [x for x in pat_literals(a["pat"])[0] if isinstance(x, int)]]
+            arms4096 = [a for a in m.get("arms", []) if 4096 in [x for x in pat_literals(a["pat"])[0] if isinstance(x, int)]]
+            others = [a for a in m.get("arms", []) if a not in arms512 and a not in arms4096]
+            if not arms512 and not arms4096:
+                continue
+            narrow_ok = all(124 in ends(a["body"]) and 128 not in ends(a["body"]) for a in arms512)
+            wide_ok = all(128 in ends(a["body"]) for a in arms4096)
+            rest_ok = all((128 in ends(a["body"])) if arms512 else (124 in ends(a["body"])) for a in others if ends(a["body"]))
+            if narrow_ok and wide_ok and rest_ok:
+                rep.holds("R-TAB-CFB", key, loc(m), "512-byte sectors: 32-bit size (120..124); otherwise 64-bit (120..128)")
+            else:
+                rep.violation("R-TAB-CFB", key, loc(m), "Directory::from_slice picks the width of the stream size the wrong way round: a version-3 entry (512-byte sectors) must be read as 32 bits, its upper four bytes may hold garbage")
+            return
+        rep.anchor_missing("R-TAB-CFB", "the sector-size test that selects the width of the stream size in Directory::from_slice")
+        return
+    i, c, v = hit
+    then_e, else_e = ends(i["then"]), ends(i["els"]) if i.get("els") is not None else set()
+    narrow_in_then = 124 in then_e
+    # `== 512` must select the 4-byte read, `== 4096` the 8-byte one (and the reverse for `!=`)
+    want_narrow_then = (v == 512) == (c["op"] == "==")
+    if narrow_in_then == want_narrow_then and (124 in then_e | else_e) and (128 in then_e | else_e):
+        rep.holds("R-TAB-CFB", key, loc(i), "512-byte sectors: 32-bit size (120..124); otherwise 64-bit (120..128)")
+    else:
+        rep.violation("R-TAB-CFB", key, loc(i), "Directory::from_slice picks the width of the stream size the wrong way round: a version-3 entry (512-byte sectors) must be read as 32 bits, its upper four bytes may hold garbage")
+
+
+def r_asf64(ctx, rep):
+    """C11 / C09: a whole-number cell converts like the same number: in `as_f64` of Data / DataRef the Int payload is cast to
+    f64 directly, through no narrower integer type (`as i32 as f64` wraps mod 2^32 and turns an out-of-range serial into a date)."""
+    F = ctx.facts("default")
+    n = 0
+    for fn in F.fns_in("src/datatype.rs"):
+        if not fn.name.endswith("::as_f64") or "ExcelDateTime" in fn.name:
+            continue
+        n += 1
+        key = "%s|R-ASF64" % fn.name
+        bad = [c for c in walk_k(fn.body, "Cast") if (c.get("ty") or "") in ("i32", "i16", "i8", "u32", "u16", "u8") and "i64" in ((peel(c.get("e")) or {}).get("ty") or "")]
+        if bad:
+            rep.violation("R-ASF64", key, loc(bad[0]), "%s narrows the integer payload to `%s` on its way to f64: integers beyond that type wrap, so an out-of-range serial converts to a plausible date instead of None" % (fn.name, bad[0].get("ty")))
+        else:
+            rep.holds("R-ASF64", key, loc(fn.raw), "the Int payload reaches f64 by one widening cast")
+    rep.floor("R-ASF64", 2, "as_f64 of Data and DataRef")
+
+
+def r_pos_cols(ctx, rep):
+    """C09: the position of a cell of the row being deserialised is (row, first column + i): in both accessors of
+    RowDeserializer the first component of the pair handed on is `self.pos.0` as it is; only the second one adds the index."""
+    F = ctx.facts("default")
+    fns = [f for f in F.fns if f.impl_self == "de::RowDeserializer" and f.impl_trait and (f.impl_trait.endswith("SeqAccess") or f.impl_trait.endswith("MapAccess"))]
+    n = 0
+    for fn in fns:
+        for t in walk_k(fn.body, "Tup"):
+            es = t.get("es", [])
+            if len(es) != 2 or (t.get("ty") or "") != "(u32, u32)":
+                continue
+            fcs = [field_chain(p) for p in walk_k(t, "Field")]
+            if not any(fc and fc[0] == "self" and fc[1][:1] == ["pos"] for fc in fcs):
+                continue
+            n += 1
+            key = "%s|R-POS|components#%d" % (fn.name, n)
+            first_plain = field_chain(es[0]) == ("self", ["pos", "0"])
+            second_adds = any(b.get("op") == "+" for b in walk_k(es[1], "Binary")) and any(field_chain(p) == ("self", ["pos", "1"]) for p in walk_k(es[1], "Field"))
+            if first_plain and second_adds:
+                rep.holds("R-POS", key, loc(t), "(self.pos.0, self.pos.1 + i)")
+            else:
+                rep.violation("R-POS", key, loc(t), "%s builds the cell position with the index added to the wrong component: an error in column k of the row is reported k rows further down instead of k columns to the right" % fn.name)
+    rep.floor("R-POS", 2, "cell positions built by RowDeserializer")
+
+
+def r_vba_width(ctx, rep):
+    """C18: the MODULEOFFSET TextOffset is a 32-bit field used as it is: read_modules (and the helpers split off it) casts
+    nothing to an 8- or 16-bit integer."""
+    F = ctx.facts("default")
+    fn = F.fn("vba::read_modules")
+    key = "vba::read_modules|R-VBAMOD|offset-width"
+    if fn is None:
+        rep.anchor_missing("R-VBAMOD", "vba::read_modules")
+        return
+    from .kit import with_new_callees
+    bad = [c for b in with_new_callees(F, fn) for c in walk_k(b, "Cast") if (c.get("ty") or "") in ("u8", "u16", "i8", "i16")]
+    if bad:
+        rep.violation("R-VBAMOD", key, loc(bad[0]), "read_modules narrows a value to `%s`: a module whose source starts 64 KiB or more into its stream (a large p-code cache in front of it) would be decompressed from offset mod 65536" % bad[0].get("ty"))
+    else:
+        rep.holds("R-VBAMOD", key, loc(fn.raw), "no narrowing cast in the MODULE record walk")
+
+
+def r_varint_width(ctx, rep):
+    """C03 / C19: the record size of xlsb is up to 28 bits: in RecordIter::fill_buffer the 7-bit groups are shifted into place
+    in a type at least 32 bits wide (a u16 accumulator silently drops everything from bit 16 on)."""
+    F = ctx.facts("default")
+    fn = F.fn("xlsb::RecordIter::fill_buffer")
+    key = "xlsb::RecordIter::fill_buffer|R-VARINT|width"
+    if fn is None:
+        rep.anchor_missing("R-VARINT", "xlsb::RecordIter::fill_buffer")
+        return
+    sh = [b for b in walk_k(fn.body, "Binary") if b.get("op") == "<<"]
+    if not sh:
+        rep.anchor_missing("R-VARINT", "the shifts of RecordIter::fill_buffer")
+        return
+    bad = [b for b in sh if ((peel(b["l"]) or {}).get("ty") or b.get("ty") or "") in ("u8", "u16", "i8", "i16")]
+    if bad:
+        rep.violation("R-VARINT", key, loc(bad[0]), "fill_buffer shifts a 7-bit group into place in a `%s`: bits 16 and up of the record size are lost, so a record of 64 KiB or more (a maximum-length inline string) is cut short and the reader resumes inside its payload" % ((peel(bad[0]["l"]) or {}).get("ty") or bad[0].get("ty")))
+    else:
+        rep.holds("R-VARINT", key, loc(sh[0]), "the size groups are shifted in a type of at least 32 bits")
